@@ -225,3 +225,63 @@ def check_query(t, scope=None, route='query-string'):
     if rows == exp_rows and (exp_rows or any(v == want and type(v) is type(want) for v in vals.values())):
         return {'skip': 'parameters differ from the source text (constant folding / piecewise) but the rows and a parameter are right'}
     return {'kind': 'parameter-value-differs', 'text': text, 'params': {k: repr(v) for k, v in vals.items()}, 'want': repr(want), 'rows': rows}
+
+
+# ------------------------------------------------------------------------------------------------ repeated execution of the same query code
+
+REPEAT_TEMPLATES = {
+    # name: (source of a function q(a, b) that runs ONE query, Python's value of the result for the row text 'abcdef' / n = 3)
+    'gen-index':        ("def q(a, b):\n    return orm.select(w.text[%(E)s] for w in W).first()\n",          lambda s, v: s[v]),
+    'gen-slice-upper':  ("def q(a, b):\n    return orm.select(w.text[:%(E)s] for w in W).first()\n",         lambda s, v: s[:v]),
+    'gen-slice-lower':  ("def q(a, b):\n    return orm.select(w.text[%(E)s:] for w in W).first()\n",         lambda s, v: s[v:]),
+    'gen-slice-both':   ("def q(a, b):\n    return orm.select(w.text[%(E)s:b + 3] for w in W).first()\n",    None),
+    'str-index':        ("def q(a, b):\n    return orm.select('w.text[%(E)s] for w in W').first()\n",        lambda s, v: s[v]),
+    'str-slice-upper':  ("def q(a, b):\n    return orm.select('w.text[:%(E)s] for w in W').first()\n",       lambda s, v: s[:v]),
+    'str-slice-lower':  ("def q(a, b):\n    return orm.select('w.text[%(E)s:] for w in W').first()\n",       lambda s, v: s[v:]),
+    'gen-compare':      ("def q(a, b):\n    return orm.select(w.n for w in W if w.n == %(E)s).first()\n",     None),
+    'str-compare':      ("def q(a, b):\n    return orm.select('w.n for w in W if w.n == %(E)s').first()\n",   None),
+    'gen-in-list':      ("def q(a, b):\n    return orm.select(w.n for w in W if w.n in [%(E)s, b]).first()\n", None),
+}
+REPEAT_EXPRS = ['a', 'a + b * 2', 'a - b', '-a', '(a if b else 1)', 'a + 1', 'b + a * 2']
+
+_rdb = {}
+
+
+def repeat_db():
+    if 'W' in _rdb: return _rdb['W']
+    from pony import orm
+    db = orm.Database('sqlite', ':memory:')
+    class W(db.Entity):
+        text = orm.Required(str)
+        n = orm.Required(int)
+    db.generate_mapping(create_tables=True)
+    with orm.db_session:
+        W(text='abcdef', n=3); orm.commit()
+    _rdb['W'] = W
+    return W
+
+
+def repeat_check(template, expr, calls):
+    """The same query code (one function object, warm translator cache) executed with changing outer values; every call must give what a
+    cold execution of the same query (fresh code object, nothing cached) gives for those values.  -> None | failure dict | {'skip':...}"""
+    from pony import orm
+    W = repeat_db()
+    src = REPEAT_TEMPLATES[template][0] % {'E': expr}
+    def fresh():
+        g = {'orm': orm, 'W': W}
+        exec(compile(src, '<c04-repeat %s %s>' % (template, expr), 'exec'), g)
+        return g['q']
+    warm = fresh()
+    out = []
+    with orm.db_session:
+        for a, b in calls:
+            try: cold_v = ('val', fresh()(a, b))
+            except Exception as e: cold_v = ('exc', type(e).__name__)
+            try: warm_v = ('val', warm(a, b))
+            except Exception as e: warm_v = ('exc', type(e).__name__)
+            out.append((a, b, warm_v, cold_v))
+            if warm_v != cold_v:
+                return {'kind': 'repeated-execution-differs', 'template': template, 'expr': expr, 'src': src, 'calls': [list(c) for c in calls],
+                        'at': [a, b], 'warm': warm_v, 'cold': cold_v, 'history': [(x[0], x[1]) for x in out]}
+    if all(x[2][0] == 'exc' for x in out): return {'skip': 'every call raises (%s)' % out[0][2][1]}
+    return None
